@@ -463,14 +463,14 @@ def module_consts(module, scope=''):
         if len(parts) == 1:
             for sc in ([scope] if scope else []) + ['']:
                 d = module.consts.get(sc, {})
-                if name in d and isinstance(d[name], (str, bytes, int, bool, tuple, frozenset, type(None))):
+                if name in d and isinstance(d[name], (str, bytes, int, bool, tuple, frozenset, dict, list, type(None))):
                     return (d[name],)
             return None
         if len(parts) == 2 and (parts[0] in ('self', 'cls') and scope or parts[0] in module.classes):
             cname = scope if parts[0] in ('self', 'cls') else parts[0]
             for c in module.mro(cname):
                 d = module.consts.get(c, {})
-                if parts[1] in d and isinstance(d[parts[1]], (str, bytes, int, bool, tuple, frozenset)):
+                if parts[1] in d and isinstance(d[parts[1]], (str, bytes, int, bool, tuple, frozenset, dict, list)):
                     return (d[parts[1]],)
         return None
     return look
